@@ -8,5 +8,6 @@ CONSTANTS
   ForgetClientOnRemove = TRUE
   AddOverwrites = TRUE
   ClientPerCall = TRUE
+  AckOnApply = TRUE
 INVARIANTS ViewOK NoDeadClient
 CHECK_DEADLOCK FALSE
